@@ -18,7 +18,7 @@ def run(ctx):
                        'the round counter is advanced before the first handler of a round and written by nobody else; '
                        'the runner returns only when the detached batch is empty', floor=6)
     ctx.rule('R-C06b', 'with tasks pending the poll deadline is the address of a local timespec whose both fields were stored 0', floor=1)
-    ctx.rule('R-C06c', 'tasks run in every loop iteration before the poll call', floor=1)
+    ctx.rule('R-C06c', 'on every path to the kernel wait a round of tasks was begun (round counter advanced / runner called) since the previous wait', floor=1)
     ctx.rule('R-C06d', 'a task is linked exactly once, into the running batch only on the edge where its round stamp differs from the '
                        'current round (a task that already ran this round is deferred to the next); every store to a round stamp '
                        'stores the current round', floor=5)
@@ -60,6 +60,7 @@ def _runner_contexts(prog):
 
 def runner(ctx):
     prog = ctx.prog
+    h.bind(prog)
     cs = _runner_contexts(prog)
     if not cs:
         raise AnalysisBroken('task handler call site not found')
@@ -92,7 +93,13 @@ def runner(ctx):
         for e in g.events():
             if e['ev'] == 'store' and h.COUNTER in h.lvalue_steps(e['lhs']):
                 seen.add(e['loc'])
-    ws = prog.writers_of(*h.COUNTER)
+    # every store to the counter in any exported context of a function that mentions it (also through a cached address)
+    ws = []
+    for r in h.minimal_roots(prog, h.mentioning(prog, h.COUNTER)):
+        g = h.inlined(prog, r)
+        for e in g.events():
+            if e['ev'] == 'store' and h.COUNTER in h.lvalue_steps(e['lhs']):
+                ws.append((h.origin_fn(prog, g, e), e))
     foreign = [(f, e) for (f, e) in ws if e['loc'] not in seen and not (e.get('op') == '=' and h.is_int(e.get('rhs')))]
     r0 = cs[0][0]
     ctx.ob('R-C06a', 'round-counter:changed-only-by-the-runner', not foreign,
@@ -109,7 +116,7 @@ def _deadline_arg(prog, g, e):
     t = h.callee_of(prog, g, e)
     args = e.get('args', [])
     if t is not None:
-        idx = [i for i, p in enumerate(t.params) if p.get('record') == 'timespec' and p.get('ptr')]
+        idx = h.deadline_params(t)
         if len(idx) == 1 and idx[0] < len(args):
             return args[idx[0]]
     idx = [i for i, a in enumerate(args) if any(x.get('record') == 'timespec' for x in h.walk(a))]
@@ -123,6 +130,7 @@ def zero_timeout(ctx):
     method are reachable.  It is analysed with static helpers inlined; other exported functions stay calls.
     wait site = call of a function from which the poll slot is reachable."""
     prog = ctx.prog
+    h.bind(prog)
     waiters = roles.functions_with(prog, lambda e: callback_kind(e) == ('method', 'poll'))
     if not waiters:
         raise AnalysisBroken('no call through the poll slot of the poll method')
@@ -138,10 +146,16 @@ def zero_timeout(ctx):
     if not mains:
         raise AnalysisBroken('no exported function both runs tasks and enters the kernel wait')
     touch = h.may_touch_tasks(prog)
+    # exported functions that begin a round of tasks on every path through them (the round counter is advanced): a call of
+    # one of them "runs the tasks".  One that does so only conditionally (a merged entry point `run(st, what)`) is not
+    # trusted as a call: it is inlined, and the round it begins counts where the counter is stepped.
+    always = {q for q in T if q in rootq and q not in W and h.always_begins_round(prog, rootq[q])}
     nsites = 0
     for M in mains:
         # other exported functions that wait, run tasks or may run user code stay calls; the rest is inlined
-        stopq = (set(rootq) & (W | T | touch)) - {M.q}
+        stopq = (set(rootq) & (W | always | (touch - T))) - {M.q}
+        # ... except a waiting function that chooses the deadline itself (no deadline parameter): its choice is what is checked
+        stopq -= {q for q in stopq if q in W and not h.deadline_params(rootq[q])}
         g = h.inline_root(prog, M, stop=lambda t: t.q in stopq)
         cache = {}
 
@@ -154,9 +168,13 @@ def zero_timeout(ctx):
         def is_wait(e):
             return e['ev'] == 'call' and (callback_kind(e) == ('method', 'poll') or ('callee' in e and target(e) in W))
 
+        adv = h.advancing_stores(prog, g)
+
         def is_taskrun(e):
+            if e['ev'] == 'store':
+                return (e['_b'], e['_i']) in adv                     # a round of tasks begins
             return e['ev'] == 'call' and (('fnexpr' in e and last_member(h.fn_target(e['fnexpr'])) == h.HANDLER)
-                                          or ('callee' in e and target(e) in T and target(e) not in W))
+                                          or ('callee' in e and target(e) in always))
 
         def touches(e):
             if e['ev'] != 'call':
@@ -179,17 +197,21 @@ def zero_timeout(ctx):
             tested, ran = False, True
             for e in evs:
                 arg = _deadline_arg(prog, g, e)
-                for (pend, env, zeros, rn) in wf.at[(e['_b'], e['_i'])]:
+                for st_ in wf.at[(e['_b'], e['_i'])]:
+                    (pend, env, zeros, rn) = st_
                     ran = ran and rn
                     tested = tested or pend == 'N'
                     if pend == 'E':
                         continue
-                    dl = wf.value(arg, env, pend)
-                    L = dl[1] if isinstance(dl, tuple) and dl[0] == 'addr' else None
-                    Z = isinstance(dl, tuple) and dl[0] == 'zaddr'      # a never-written zero-initialised const object
-                    res['deadline-is-local'] = res['deadline-is-local'] and (L is not None or Z)
-                    res['tv_sec=0'] = res['tv_sec=0'] and (Z or (L is not None and (L, 'tv_sec') in zeros))
-                    res['tv_nsec=0'] = res['tv_nsec=0'] and (Z or (L is not None and (L, 'tv_nsec') in zeros))
+                    for (dl, pn) in wf.arm_values(arg, st_):      # `c ? a : b` / `table[test]` as the argument: every arm the state allows
+                        tested = tested or pn == 'N'
+                        if pn == 'E':
+                            continue
+                        L = dl[1] if isinstance(dl, tuple) and dl[0] == 'addr' else None
+                        Z = isinstance(dl, tuple) and dl[0] == 'zaddr'      # a never-written zero-initialised const object
+                        res['deadline-is-local'] = res['deadline-is-local'] and (L is not None or Z)
+                        res['tv_sec=0'] = res['tv_sec=0'] and (Z or (L is not None and (L, 'tv_sec') in zeros))
+                        res['tv_nsec=0'] = res['tv_nsec=0'] and (Z or (L is not None and (L, 'tv_nsec') in zeros))
             for what in ('deadline-is-local', 'tv_sec=0', 'tv_nsec=0'):
                 ctx.ob('R-C06b', '%s:pending-tasks:%s' % (M.name, what), res[what], loc=loc,
                        detail='on every path to the kernel wait on which the pending-task list was not found empty '
@@ -198,7 +220,7 @@ def zero_timeout(ctx):
                 ctx.ob('R-C06b', '%s:pending-tasks:tested' % M.name, False, loc=loc,
                        detail='the poll deadline does not depend on a test of the pending-task list: with tasks pending the loop may sleep', fn=M.q)
             ctx.ob('R-C06c', '%s:tasks-before-poll' % M.name, ran, loc=loc,
-                   detail='on every path to the kernel wait the task handlers were run since the previous wait (or entry)', fn=M.q)
+                   detail='on every path to the kernel wait a round of tasks was begun (the runner called / the round counter advanced) since the previous wait (or entry)', fn=M.q)
     if not nsites:
         raise AnalysisBroken('%s: call that enters the kernel wait not found' % ', '.join(m.name for m in mains))
 
@@ -209,8 +231,8 @@ def zero_timeout(ctx):
 
 def register(ctx):
     prog = ctx.prog
-    owners = roles.functions_with(prog, lambda e: (e['ev'] == 'call' and any(h.addr_of_member(a) == h.LINK for a in e.get('args', [])))
-                                  or (e['ev'] == 'store' and h.LINK in h.lvalue_steps(e['lhs'])))
+    h.bind(prog)
+    owners = h.mentioning(prog, h.LINK)          # also those that work on a cached address of the node
     n = 0
     for r in h.minimal_roots(prog, owners):
         g = h.inlined(prog, r)
@@ -245,10 +267,8 @@ def fresh_stamp(ctx):
     """Every store to a task's round stamp stores the current round counter unless no loop state exists (so a task
     initialised inside a running round is deferred like one that already ran, and a task that ran is deferred)."""
     prog = ctx.prog
-    owners = []
-    for (fn, e) in prog.writers_of(*h.STAMP):
-        if fn not in owners:
-            owners.append(fn)
+    h.bind(prog)
+    owners = h.mentioning(prog, h.STAMP)         # also those that write it through a cached address
     by_site = {}
     for r in h.minimal_roots(prog, owners):
         g = h.inlined(prog, r)
@@ -276,33 +296,33 @@ def fresh_stamp(ctx):
 
 def batch_pointer(ctx):
     prog = ctx.prog
-    owners = []
-    for (fn, e) in prog.writers_of(*h.CURRENT):
-        if fn not in owners:
-            owners.append(fn)
+    h.bind(prog)
+    owners = h.mentioning(prog, h.CURRENT)
     publ = {}
     for r in h.minimal_roots(prog, owners):
         g = h.inlined(prog, r)
-        decls = {e['name'] for e in g.events() if e['ev'] == 'decl'}
+        # publishing stores: the pointer is given the address of a list head (normally a local of the frame; the rule is
+        # the same for a batch head that lives elsewhere: it must not stay published when the runner is done)
         pubs = [e for e in g.events() if e['ev'] == 'store' and e.get('op') == '=' and last_member(e['lhs']) == h.CURRENT
-                and h.addr_of_local(e.get('rhs')) in decls]
-        for L in sorted({h.addr_of_local(e['rhs']) for e in pubs}):
-            mine = [e for e in pubs if h.addr_of_local(e['rhs']) == L]
+                and h.batch_address(g, e.get('rhs')) is not None]
+        for L in sorted({h.batch_address(g, e['rhs']) for e in pubs}):
+            mine = [e for e in pubs if h.batch_address(g, e['rhs']) == L]
+            is_L = lambda x, L=L: h.batch_address(g, x) == L
             for e in mine:
                 publ[e['loc']] = e
-            # (1) on every exit the pointer no longer holds the address of the frame's list head
-            def tr(x, s, L=L):
+            # (1) on every exit the pointer no longer holds the address of the batch head
+            def tr(x, s, is_L=is_L):
                 if x['ev'] == 'store' and h.CURRENT in h.lvalue_steps(x['lhs']):
-                    return h.addr_of_local(x.get('rhs')) == L if x.get('op') == '=' else False
+                    return is_L(x.get('rhs')) if x.get('op') == '=' else False
                 return s
             _, at = forward(g, False, tr, lambda a, b: a or b)
             dangling = [p for p in h.exit_points(g) if at.get(p)]
             ctx.ob('R-C06e', '%s:batch-pointer-cleared' % r.name, not dangling, loc=mine[0]['loc'],
-                   detail='the running-batch pointer is published the address of local %s; on every path to return it is overwritten '
-                          'with a value that is not the address of a local' % L, fn=r.q)
-            # (2) the batch that was detached into the local list is empty when the runner returns
-            def tr2(x, s, L=L):
-                if x['ev'] == 'decl' and x['name'] == L:
+                   detail='the running-batch pointer is published the address %s; on every path to return it is overwritten '
+                          'with a value that is not that address' % L, fn=r.q)
+            # (2) the batch that was detached into that list is empty when the runner returns
+            def tr2(x, s, L=L, is_L=is_L):
+                if x['ev'] == 'decl' and '&' + x['name'] == L:
                     return None
                 if x['ev'] != 'call':
                     return s
@@ -310,21 +330,20 @@ def batch_pointer(ctx):
                     return False if s is not None else None      # a handler may register into the running batch
                 c, args = x.get('callee'), x.get('args', [])
                 if c in h.LIST_MOVE_OUT and len(args) == 2:
-                    if h.addr_of_local(args[1]) == L:
+                    if is_L(args[1]):
                         return False                               # the batch is detached into L
-                    if h.addr_of_local(args[0]) == L:
+                    if is_L(args[0]):
                         return True if s is not None else None     # whatever is left is moved to another list
-                if c in h.LIST_ADD + ('iv_list_splice', 'iv_list_splice_tail', '__iv_list_splice') and any(h.addr_of_local(a) == L for a in args):
+                if c in h.LIST_ADD + ('iv_list_splice', 'iv_list_splice_tail', '__iv_list_splice') and any(is_L(a) for a in args):
                     return False
-                if c not in ('iv_list_empty',) + h.LIST_DEL and any(h.addr_of_local(a) == L for a in args):
+                if c not in ('iv_list_empty',) + h.LIST_DEL and any(is_L(a) for a in args):
                     return False if s is not None else None
                 return s
-            def edge2(blk, si, s, L=L):
+            def edge2(blk, si, s, is_L=is_L):
                 if s is False and blk.term and blk.term.get('cond') is not None and len(blk.succ) == 2:
                     for atom in norm_cond(blk.term['cond'], si == 0):
-                        c = strip(atom[3])
-                        if atom[0] == '!=' and atom[2] == '0' and isinstance(c, dict) and c.get('k') == 'call' \
-                                and c.get('callee') == 'iv_list_empty' and c.get('args') and h.addr_of_local(c['args'][0]) == L:
+                        t = h.empty_test(atom)              # however the emptiness test is written
+                        if t is not None and t[1] and is_L(t[0]):
                             return True
                 return s
             def jn(a, b):
@@ -334,10 +353,10 @@ def batch_pointer(ctx):
             _, at2 = forward(g, None, tr2, jn, edge=edge2)
             left = [p for p in h.exit_points(g) if at2.get(p) is False]
             ctx.ob('R-C06a', '%s:batch-drained' % r.name, not left, loc=mine[0]['loc'],
-                   detail='after the pending tasks were detached into local %s the function returns only on the edge where that list is '
+                   detail='after the pending tasks were detached into the list at %s the function returns only on the edge where that list is '
                           'empty (or after moving the rest to another list): no detached task is dropped' % L, fn=r.q)
     if not publ:
-        raise AnalysisBroken('no function publishes the address of a local batch in the running-batch pointer any more')
+        raise AnalysisBroken('no function publishes the address of a batch list in the running-batch pointer any more')
     # the dead-frame rule of C18 (borrowed; owned by C18) restricted to the same publishing stores
     sub = []
     import types
